@@ -249,6 +249,30 @@ func (p *Path) IntWithin(pattern string, baseLo, baseHi, lo, hi int64) bool {
 	return false
 }
 
+// IntAtMost reports whether the integer constraints collected on the path confine the value whose key matches
+// pattern to values <= k.
+func (p *Path) IntAtMost(pattern string, k int64) bool {
+	re := pat(pattern)
+	for key, iv := range p.ivals {
+		if re.MatchString(key) && iv.hasHi && iv.hi <= k {
+			return true
+		}
+	}
+	return false
+}
+
+// IntAtLeast reports whether the integer constraints collected on the path confine the value whose key matches
+// pattern to values >= k.
+func (p *Path) IntAtLeast(pattern string, k int64) bool {
+	re := pat(pattern)
+	for key, iv := range p.ivals {
+		if re.MatchString(key) && iv.hasLo && iv.lo >= k {
+			return true
+		}
+	}
+	return false
+}
+
 func (p *Path) Decided(key string) (bool, bool) {
 	for _, d := range p.Decisions {
 		if d.Key == key {
